@@ -36,6 +36,9 @@ type session struct {
 	HeldUsed  bool           `json:"held_used"`
 	Cancelled int            `json:"cancelled_rebuilds"`
 	Kinds     map[string]int `json:"kinds"`
+
+	Pipe       map[string]interface{} `json:"pipe,omitempty"` // pipelining sessions: wave kinds, chunking, byte offsets
+	HarnessErr string                 `json:"harness_err,omitempty"`
 }
 
 type sessionOpts struct {
